@@ -81,9 +81,10 @@ def specfun(name, argtys, ret, **kw):
     return f
 
 class Lemma:
-    def __init__(self, name, vars, hyps, goal, props=(), note="", induction=None):
+    def __init__(self, name, vars, hyps, goal, props=(), note="", induction=None, canary=False):
         self.name, self.vars, self.hyps, self.goal = name, dict(vars), list(hyps), goal
         self.props, self.note = list(props), note
+        self.canary = canary        # deliberately false goal under the same hypotheses: must NOT be provable (guards against contradictory hypotheses)
 
 def lemma(name, vars, hyps, goal, **kw):
     l = Lemma(name, vars, hyps, goal, **kw)
